@@ -155,6 +155,12 @@ Qed.
 Ltac sp := cbn [s_cfg s_nodes s_spk s_annb s_annl s_ips s_ipkeys s_bgp s_l2
                 set_cfg set_nodes set_spk set_annb set_annl set_ips set_bgp set_l2 ann] in *.
 
+Lemma l2_set_nomatch name p ips l2 :
+  match_ifs (ip_adv_for me (pl_l2 p)) (en_ifs ev) = false -> l2_set_balancer ev name ips p l2 = l2.
+Proof.
+  unfold l2_set_balancer. fold me. intros ->. induction ips as [|x r IH]; cbn [fold_left]; [reflexivity|exact IH].
+Qed.
+
 Lemma l2_delete_spec name l2 n : l2_delete name l2 n = if n =? name then None else l2 n.
 Proof.
   unfold l2_delete. destruct (l2 name) eqn:E; unfold upd.
@@ -260,12 +266,13 @@ Definition pre_ips (name : N) (ips : list ip) (st : sstate) : Prop :=
 
 Lemma handle_spec P name ips s p st :
   Bk st -> pre_ips name ips st -> ips <> [] -> s_cfg st <> None ->
-  (P = PL2 -> should_of P st p s ips = true -> match_ifs (ip_adv_for me (pl_l2 p)) (en_ifs ev) = true) ->
   let st' := handle ev P name ips s p st in
   Bk st' /\ frame name st st' /\ pre_ips name ips st' /\ ann P st' name = should_of P st p s ips /\
-  (should_of P st p s ips = true -> target P name ips p st') /\ other_same P name st st'.
+  (should_of P st p s ips = true ->
+   (P = PL2 -> match_ifs (ip_adv_for me (pl_l2 p)) (en_ifs ev) = true) -> target P name ips p st') /\
+  other_same P name st st'.
 Proof.
-  intros B Hpre Hne Hcfg Hifs. cbv zeta. unfold handle. fold (should_of P st p s ips).
+  intros B Hpre Hne Hcfg. cbv zeta. unfold handle. fold (should_of P st p s ips).
   destruct (should_of P st p s ips) eqn:Es.
   2:{ destruct (del_proto_spec P name st B) as [B1 [F1 [A1 [O1 I1]]]].
       split; [exact B1|]. split; [exact F1|]. split; [|split; [exact A1|split; [discriminate|exact O1]]].
@@ -273,12 +280,12 @@ Proof.
   destruct B as [K1 K2 K3 K3' K4 K5 K6]. destruct P; unfold target, other_same; sp; fold me.
   - (* BGP *)
     destruct (s_annb st name) eqn:Ea; sp.
-    + split; [|split; [|split; [exact Hpre|split; [exact Ea|split; [intros _; rewrite bset_ads, N.eqb_refl; reflexivity|split; reflexivity]]]]].
+    + split; [|split; [|split; [exact Hpre|split; [exact Ea|split; [intros _ _; rewrite bset_ads, N.eqb_refl; reflexivity|split; reflexivity]]]]].
       * constructor; sp; auto.
         -- intros n H. rewrite bset_ads. destruct (N.eqb_spec n name); [congruence|apply K1; exact H].
         -- apply Bg_set. exact K6.
       * unfold frame; sp. repeat split; try reflexivity. rewrite bset_ads. destruct (N.eqb_spec n name); congruence.
-    + split; [|split; [|split; [|split; [apply upd_eq|split; [intros _; rewrite bset_ads, N.eqb_refl; reflexivity|split; reflexivity]]]]].
+    + split; [|split; [|split; [|split; [apply upd_eq|split; [intros _ _; rewrite bset_ads, N.eqb_refl; reflexivity|split; reflexivity]]]]].
       * constructor; sp.
         -- intros n. unfold upd. rewrite bset_ads. destruct (N.eqb_spec n name); [discriminate|apply K1].
         -- exact K2.
@@ -293,7 +300,24 @@ Proof.
         rewrite bset_ads. unfold upd. destruct (N.eqb_spec n name); [contradiction|]. auto.
       * intros old. sp. rewrite upd_eq. intros [= <-]. tauto.
   - (* layer 2 *)
-    specialize (Hifs eq_refl eq_refl).
+    destruct (match_ifs (ip_adv_for me (pl_l2 p)) (en_ifs ev)) eqn:Hifs.
+    2:{ (* F9: no local interface matches, layer2Controller.SetBalancer skips every address *)
+        rewrite (l2_set_nomatch name p ips (s_l2 st) Hifs).
+        destruct (s_annl st name) eqn:Ea; sp.
+        - split; [constructor; sp; auto|]. split; [unfold frame; sp; auto 10|]. split; [exact Hpre|]. split; [exact Ea|].
+          split; [intros _ H; specialize (H eq_refl); discriminate|split; reflexivity].
+        - split; [|split; [|split; [|split; [apply upd_eq|split; [intros _ H; specialize (H eq_refl); discriminate|split; reflexivity]]]]].
+          + constructor; sp.
+            * exact K1.
+            * intros n. unfold upd. destruct (N.eqb_spec n name); [discriminate|apply K2].
+            * intros n. unfold upd. destruct (N.eqb_spec n name); [discriminate|apply K3].
+            * intros n. unfold upd. destruct (N.eqb_spec n name); [discriminate|apply K3'].
+            * intros n ents H. unfold upd. destruct (N.eqb_spec n name) as [->|Hn]; [rewrite (K2 name Ea) in H; discriminate|apply K4; exact H].
+            * intros H. contradiction.
+            * exact K6.
+          + unfold frame; sp. split; [reflexivity|]. split; [reflexivity|]. split; [reflexivity|]. intros n H.
+            unfold upd. destruct (N.eqb_spec n name); [contradiction|]. auto.
+          + intros old. sp. rewrite upd_eq. intros [= <-]. tauto. }
     assert (Hnd : NoDup (map le_ip (cur (s_l2 st) name))).
     { unfold cur. destruct (s_l2 st name) as [ents|] eqn:E; [apply (K4 name ents E)|constructor]. }
     destruct (l2_set_spec name p ips (s_l2 st) Hifs Hnd) as [L1 [L2 [L3 [_ L5]]]].
@@ -307,7 +331,7 @@ Proof.
       apply (Hpre old Ho). apply Hin. exact H. }
     assert (Hnd' : NoDup (map le_ip ents')) by (unfold cur in L2; rewrite E' in L2; exact L2).
     destruct (s_annl st name) eqn:Ea; sp.
-    + split; [|split; [|split; [exact Hpre|split; [exact Ea|split; [intros _; exists ents'; split; [exact E'|exact Hents]|split; reflexivity]]]]].
+    + split; [|split; [|split; [exact Hpre|split; [exact Ea|split; [intros _ _; exists ents'; split; [exact E'|exact Hents]|split; reflexivity]]]]].
       * constructor; sp; auto.
         -- intros n H. destruct (N.eqb_spec n name) as [->|Hn]; [congruence|]. rewrite (L1 n Hn). apply K2. exact H.
         -- intros n ents H. destruct (N.eqb_spec n name) as [->|Hn]; [|rewrite (L1 n Hn) in H; apply K4; exact H].
@@ -315,7 +339,7 @@ Proof.
            destruct (s_ips st name) as [old|] eqn:Eo; [|destruct (K3 name Eo); congruence].
            exists old. split; [reflexivity|]. intros e He. apply Hents in He. destruct He as [x [Hx ->]]. cbn. apply (Hpre old Eo). exact Hx.
       * unfold frame; sp. repeat split; try reflexivity. apply L1. exact H.
-    + split; [|split; [|split; [|split; [apply upd_eq|split; [intros _; exists ents'; split; [exact E'|exact Hents]|split; reflexivity]]]]].
+    + split; [|split; [|split; [|split; [apply upd_eq|split; [intros _ _; exists ents'; split; [exact E'|exact Hents]|split; reflexivity]]]]].
       * constructor; sp.
         -- exact K1.
         -- intros n. unfold upd. destruct (N.eqb_spec n name) as [->|Hn]; [discriminate|]. rewrite (L1 n Hn). apply K2.
